@@ -40,9 +40,11 @@ type (
 		Server []string
 	}
 	resultData struct {
-		streams             []*Stream
-		matchingQueryPart   []bitmask.ConnectedBitmask
-		groups              map[string]int
+		streams           []*Stream
+		matchingQueryPart []bitmask.ConnectedBitmask
+		groups            map[string]int
+		// groupKeys[i] is the key of streams[i] in groups
+		groupKeys           []string
 		variableAssociation map[uint64]int
 		variableData        []variableDataCollection
 		resultDropped       uint
@@ -1246,6 +1248,9 @@ func (r *Reader) searchStreams(ctx context.Context, result *resultData, subQuery
 				// we have no limit or the limit is not yet reached
 				replacePos = len(result.streams)
 				result.streams = append(result.streams, nil)
+				if grouper != nil {
+					result.groupKeys = append(result.groupKeys, "")
+				}
 			} else if sortingLess != nil && sortingLess(ss, result.streams[limit-1]) {
 				// we have a limit but we are better than the last
 				replacePos = len(result.streams) - 1
@@ -1262,7 +1267,7 @@ func (r *Reader) searchStreams(ctx context.Context, result *resultData, subQuery
 				delete(result.groups, string(groupKey))
 			} else if grouper != nil {
 				// we should replace the last slot
-				delete(result.groups, string(grouper.key(*r)))
+				delete(result.groups, result.groupKeys[replacePos])
 			}
 			if d, ok := result.variableAssociation[(*r).StreamID]; ok {
 				result.variableData[d].uses--
@@ -1291,10 +1296,19 @@ func (r *Reader) searchStreams(ctx context.Context, result *resultData, subQuery
 				insertPos++
 				for ; replacePos < insertPos; replacePos++ {
 					result.streams[replacePos] = result.streams[replacePos+1]
+					if grouper != nil {
+						// the group of the moved stream is found at its new position
+						result.groupKeys[replacePos] = result.groupKeys[replacePos+1]
+						result.groups[result.groupKeys[replacePos]] = replacePos
+					}
 				}
 			} else if replacePos > insertPos {
 				for ; replacePos > insertPos; replacePos-- {
 					result.streams[replacePos] = result.streams[replacePos-1]
+					if grouper != nil {
+						result.groupKeys[replacePos] = result.groupKeys[replacePos-1]
+						result.groups[result.groupKeys[replacePos]] = replacePos
+					}
 				}
 			}
 		}
@@ -1305,6 +1319,7 @@ func (r *Reader) searchStreams(ctx context.Context, result *resultData, subQuery
 				result.groups = make(map[string]int)
 			}
 			result.groups[string(groupKey)] = insertPos
+			result.groupKeys[insertPos] = string(groupKey)
 		}
 
 		vdv := []variableDataValue(nil)
